@@ -457,7 +457,8 @@ def result_oracle_ins(ctx, fs, scn):
     if not oracles.close(lpw, w - logZ, rtol=1e-9, atol=1e-9):
         viol("RES-INS-weights", {"n": len(lpw)})
     d = ns.get_result_dictionary()
-    if d["log_evidence"] != fs.logZ or d["log_evidence_error"] != fs.logZ_error:
+    if not (oracles.close(d["log_evidence"], fs.logZ, rtol=0, atol=0)
+            and oracles.close(d["log_evidence_error"], fs.logZ_error, rtol=0, atol=0)):
         viol("RES-INS-dict-evidence", {"dict": [d["log_evidence"], d["log_evidence_error"]],
                                        "sampler": [float(fs.logZ), float(fs.logZ_error)]})
     if np.asarray(d["samples"]).tobytes() != samples.tobytes():
